@@ -151,6 +151,66 @@ func runC11(res *Result, d *Driver, tier string, seed uint64) {
 	}
 	res.Sample("ptrace sleep cancel@-1ns manyfiles=true => Time Limit Exceeded within the bound, pid dead")
 
+	// ---- cancelled container runs of programs whose descendants have left the process group: the cancellation
+	// must end everything, so the next run on the same environment returns within the bound as well ----
+	nl := 4
+	if tier == "thorough" {
+		nl = 60
+	}
+	leavers := []string{
+		"fork;setsid;sleep 30000;endfork;sleep 30000;exit 0",
+		"fork;setpgid;ignore 15;sleep 30000;endfork;sleep 30000;exit 0",
+		"daemon;sleep 30000;exit 0",
+		"fork;setsid;fork;setsid;spin 30000;endfork;sleep 30000;endfork;spin 30000;exit 0",
+	}
+	for i := 0; i < nl; i++ {
+		script := leavers[i%len(leavers)]
+		delay := time.Duration(10+rng.Intn(40)) * time.Millisecond
+		ctx, cancel := context.WithCancel(context.Background())
+		go func() { time.Sleep(delay); cancel() }()
+		type out struct {
+			r  runner.Result
+			el time.Duration
+		}
+		ch := make(chan out, 1)
+		go func() {
+			t0 := time.Now()
+			r, _ := env.runProbe(RunSpec{Script: script, Ctx: ctx, Timeout: 60 * time.Second}, i%2 == 0)
+			el := time.Since(t0)
+			if r.Status == runner.StatusRunnerError || el > bound {
+				ch <- out{r, el}
+				return
+			}
+			t1 := time.Now()
+			r2, _ := env.runProbe(RunSpec{Script: "exit 0", Timeout: 60 * time.Second}, false)
+			if r2.Status != runner.StatusNormal {
+				r = r2
+			}
+			ch <- out{r, time.Since(t1)}
+		}()
+		key := fmt.Sprintf("container leaver %q cancel@%v, then a run of `exit 0`", script, delay)
+		res.Case(key+itoa(i), true, "container-leaver")
+		res.Traces++
+		var bad string
+		select {
+		case o := <-ch:
+			if o.r.Status == runner.StatusRunnerError || o.el > bound {
+				bad = fmt.Sprintf("status=%v err=%q elapsed=%v", o.r.Status, o.r.Error, o.el)
+			}
+		case <-time.After(2*bound + 5*time.Second):
+			bad = "the cancelled run or the run after it did not return (a descendant that left the process group survived the cancellation and blocks the container)"
+		}
+		cancel()
+		if bad != "" {
+			res.Mismatch(Mismatch{Kind: "oracle", What: "cancel ends the whole run, the environment serves the next run within the bound (C11)", Input: key, Impl: bad, Oracle: "violates"})
+			os.RemoveAll(env.root)
+			go env.Destroy()
+			if env, err = newEnv(container.Builder{}); err != nil {
+				fatal("container: %v", err)
+			}
+		}
+	}
+
 	// ---- Destroy while a call is in flight ----
 	nd := 6
 	if tier == "thorough" {
